@@ -752,5 +752,9 @@ func init() {
 		walletPasswordFamily(c, dir)
 		// 7. operation sequences on one key file object / one Manager: decrypting is read-only
 		walletSequences(c, dir)
+		// 8. persisted round trips over a path that already holds another key file (every other size, same size) or garbage
+		if c.Args["overwrite"] != "0" {
+			walletOverwrite(c, dir)
+		}
 	})
 }
